@@ -51,8 +51,14 @@ package sqlparser
 //@   noinline *
 //@   ensures parse-error-empty: err != nil ==> normalizedQuery == "" && redactedQuery == "" && parsedQuery == nil && err == ErrQuerySyntaxError
 //@   ensures redacted-after-normalize: err == nil ==> redactedQuery == ret(String#1)[0] && called(Normalize)
+//@   ensures unparsed-text-has-no-redacted-form: err == nil ==> !typeis(ret(Parser.Parse#0)[0], NotParsedStatement)
 //@   at call String#1 : assert called(Normalize) && arg[0] == argof(Normalize)[0]
 //@   at call Normalize : assert arg[0] == ret(Parser.Parse#0)[0]
 //@   at call Parser.Parse#0 : assert arg[0] == ret(strings.TrimSuffix)[0]
 //@   at call strings.TrimSuffix : assert arg[0] == ret(SplitMarginComments)[0] && arg[1] == ";"
 //@   at call SplitMarginComments : assert arg[0] == sql
+
+// Completeness of the tree walk (C16: "whatever their position in the statement"): every node type hands every child that
+// is itself a node (or a list of nodes) to Walk on every successful path of its walkSubtree - so no literal position is
+// out of the normalizer's reach. Data-flow check over the SSA of all walkSubtree methods; exceptions are listed.
+//@ structural walkers-visit-every-child props C16 : walks-children SQLNode walkSubtree Walk
